@@ -345,7 +345,7 @@ class FloatProperty(Property):
         self.max = max
         super(FloatProperty, self).__init__(**kwargs)
 
-    def clean(self, value, allow_custom=False):
+    def clean(self, value, allow_custom=False, interoperability=False):
         try:
             value = float(value)
         except Exception:
@@ -366,7 +366,7 @@ class BooleanProperty(Property):
     _trues = ['true', 't', '1', 1, True]
     _falses = ['false', 'f', '0', 0, False]
 
-    def clean(self, value, allow_custom=False):
+    def clean(self, value, allow_custom=False, interoperability=False):
 
         if isinstance(value, str):
             value = value.lower()
@@ -389,7 +389,7 @@ class TimestampProperty(Property):
 
         super(TimestampProperty, self).__init__(**kwargs)
 
-    def clean(self, value, allow_custom=False):
+    def clean(self, value, allow_custom=False, interoperability=False):
         return parse_into_datetime(
             value, self.precision, self.precision_constraint,
         ), False
@@ -496,7 +496,7 @@ class HashesProperty(DictionaryProperty):
 
 class BinaryProperty(Property):
 
-    def clean(self, value, allow_custom=False):
+    def clean(self, value, allow_custom=False, interoperability=False):
         try:
             base64.b64decode(value, validate=True)
         except (binascii.Error, TypeError):
@@ -506,7 +506,7 @@ class BinaryProperty(Property):
 
 class HexProperty(Property):
 
-    def clean(self, value, allow_custom=False):
+    def clean(self, value, allow_custom=False, interoperability=False):
         if not re.match(r"^([a-fA-F0-9]{2})+\Z", value):
             raise ValueError("must contain an even number of hexadecimal characters")
         return value, False
